@@ -216,6 +216,12 @@ def run(tier, seed):
         res.add('transitions', r.coverage.get('transitions', 0))
         res.violations.extend(r.violations)
     res.merge(_namemode_templates())
+    # a task registry that outlives a chain (what MultiChain does, spread over time): the in-memory task shared by the chains runs once
+    from tcv.checks import c13
+    for sig, what in c13.namespace_scenarios():
+        if 'computed again' in sig or 'registry' in sig:
+            res.violations.append(Violation(f'registry: {sig}', what, {'kind': 'registry'}))
+    res.add('evaluations')
     res.coverage['traces_validated_against_impl'] = res.coverage['evaluations']
     res.coverage['exhaustive'] = True
     res.coverage['rule'] = ('per world: every history over {new(slot,variant), value(slot,task), inspect(slot), restart}, two live slots, up to the stateless depth, then '
@@ -230,6 +236,10 @@ def replay(case):
     import tcv
 
     tcv.quiet_library()
+    if case.get('kind') == 'registry':
+        from tcv.checks import c13
+        from tcv.core import Violation as V
+        return [V(f'registry: {sig}', what, case) for sig, what in c13.namespace_scenarios() if 'computed again' in sig or 'registry' in sig]
     if case.get('kind') == 'proc':
         from tcv import procleg
         from tcv.core import Violation as V
